@@ -137,7 +137,7 @@ def run(ctx):
     ctx.traces += len(cases)
     # spec growth beyond the property: arange_with_interval, rounding helper, equally spaced grids
     from .. import helpers_check
-    helpers_check.run(ctx, {"arange", "round", "grid"}, "C19")
+    helpers_check.run(ctx, {"arange", "round", "grid", "signif", "norms"}, "C19")
     for c in [c for c in cases if c["status"] == "interp"][:3]:
         ctx.sample(c)
     ctx.assumptions += ["overlap shorter than one coarsest step: either answer accepted (the property does not decide it)",
